@@ -429,6 +429,18 @@ void h_literal (void)
 #elif LKIND == 3          /* 64-bit suffix: abL */
   V_ASSUME (a >= 1 && a <= 9 && b <= 9);
   s[0] = '0' + a; s[1] = '0' + b; s[2] = nondet_bool () ? 'L' : 'l'; s[3] = 0; want = 10 * a + b; want_size = 8;
+#elif LKIND == 7          /* two 64-bit literals in one function that agree in their low 32 bits: two distinct constants */
+  V_ASSUME (a >= 1 && a <= 9 && b <= 9);
+  char l1[8] = { '0' + b, 'L', 0 };                                                   /* bL               */
+  char l2[24] = { '0', 'x', '0' + a, '0', '0', '0', '0', '0', '0', '0', '0' + b, 'L', 0 };   /* 0xa0000000bL */
+  int i1 = orc_program_add_constant_str (p, 0, l1, "k1");
+  int i2 = orc_program_add_constant_str (p, 0, l2, "k2");
+  V_ASSERT (i1 == ORC_VAR_C1 && p->vars[i1].value.i == (long long) b && p->vars[i1].size == 8, "first literal has its value");
+  V_ASSERT (i2 >= ORC_VAR_C1 && i2 < ORC_VAR_C1 + ORC_MAX_CONST_VARS && p->vars[i2].vartype == ORC_VAR_TYPE_CONST
+            && p->vars[i2].value.i == (long long) (((unsigned long long) a << 32) | b) && p->vars[i2].size == 8, "a second literal that differs only above bit 31 keeps its own value");
+  V_ASSERT (p->vars[i1].value.i == (long long) b, "and the first one is unchanged");
+  V_WITNESS ();
+  return;
 #elif LKIND == 5          /* full-width 64-bit hex: 0x a fff fff fff fff f b c L  (top of the unsigned range included) */
   V_ASSUME (a <= 15 && b <= 15 && c <= 15);
   char big[24]; int k = 0;
